@@ -15,18 +15,13 @@ C10 driver.  case (see harness/src/bin/c10.rs):
 -/
 import Drivers.Common
 import RioModel.Model.MarkerSpec
-import RioModel.Model.MarkerEngine
+import RioModel.Model.MarkerStd
 open Lean Rio.Marker
 
 def L (s : String) : Str := s.toList
 def S (s : Str) : String := String.ofList s
 
 def probe : Str := L "<probe>"
-
-def stdEngine : Engine where
-  full ic p s := Engine.isMatch ic (['^'] ++ p ++ ['$']) s
-  search p s := Engine.isMatch false p s
-  caps ic p s := Engine.captures ic (['^'] ++ p ++ ['$']) s
 
 def optStrL (j : Json) (k : String) : Except String (Option Str) := do
   return (← Drv.optStr? j k).map L
@@ -199,6 +194,8 @@ def handleTr (j : Json) : Except String Json := do
 def handle (j : Json) : Except String Json := do
   if (j.getObjValAs? String "kind").toOption == some "sub" then return ← handleSub j
   if (j.getObjValAs? String "kind").toOption == some "tr" then return ← handleTr j
+  -- non-ASCII cased text: outside the ASCII character model, judged on the implementation alone (harness oracle)
+  if (j.getObjValAs? String "kind").toOption == some "uni" then return Json.mkObj [("tags", toJson ["uni:impl-only"])]
   if (j.getObjValAs? String "kind").toOption == some "law" then return ← handleLaw j
   let cfgJ := (j.getObjVal? "cfg").toOption.getD (Json.mkObj [])
   let cfg : Config := ⟨optB cfgJ "ipc", optB cfgJ "ihc", optB cfgJ "ihdc"⟩
